@@ -53,7 +53,7 @@ def spec(case, obs):
     return True, ""
 
 
-spec.own_two_pass = True  # two-pass cases too are judged by the limit alone (what else they do is C15's subject, finding D71)
+spec.own_two_pass = True  # two-pass cases too are judged by the limit alone (what else they do is C15's subject, finding D73)
 
 
 def _n(name, preds=(), **kw):
